@@ -539,7 +539,7 @@ def main(argv=None):
         chk = factory()
         chk.tier = args.tier
         return runner.print_digests(chk, runner.parse_runs(args.digests), args.repeat)
-    runs = args.runs if args.runs is not None else (128 if args.tier == "quick" else 6000)
+    runs = args.runs if args.runs is not None else (192 if args.tier == "quick" else 6000)
     finalize = None
     if not args.no_crosscheck:
         finalize = start_crosscheck(args.tier, runs)
